@@ -350,6 +350,110 @@ pub fn eval_ext(op: &str, args: &[P]) -> String {
     if let Some(m) = op.strip_prefix("B:") {
         return run_builtin(m, args);
     }
+    if op == "S:render" {
+        // the real call stack with the given labels (outermost first), rendered by its Display impl
+        let mut st = Stack::new();
+        for a in args {
+            if let P::Str(l) = a {
+                st.extend(Cow::Owned(l.clone()));
+            }
+        }
+        let text = format!("{st}");
+        return format!("OK {}", text.bytes().map(|b| format!("{:02x}", b)).collect::<String>());
+    }
+    if let Some(nn) = op.strip_prefix("S:call-remove:") {
+        // `call` with the built-in list.remove on top of the operand stack; the call stack has one frame ("verif") before
+        let n: usize = nn.parse().unwrap();
+        let recv = crate::GcVector::new(args[..n].to_vec());
+        let function = Function::new(Weak::new(), "verif".to_string(), Box::new([]));
+        let stack = Rc::new(RefCell::new(Stack::new()));
+        stack.borrow_mut().extend(Cow::Borrowed("verif"));
+        let mut ctx = Ctx::new(&function, stack.clone(), Cow::Owned(vec![]), None);
+        ctx.push(P::Vector(recv.clone()));
+        ctx.push(args[n].clone());
+        ctx.push(P::BuiltInFunction(crate::NonSweepingBuiltInFunction(crate::function::BuiltInFunction::VecRemove)));
+        let r = imp::call(&mut ctx, &[]);
+        let depth = stack.borrow().size();
+        let top_is_native = format!("{}", stack.borrow()).lines().next().map(|l| l.contains("<native code>")).unwrap_or(false);
+        let out = format!("{} depth={} native_on_top={}", if r.is_ok() { "OK" } else { "ERR" }, depth, top_is_native as u8);
+        std::mem::forget(ctx);
+        return out;
+    }
+    if let Some(rest) = op.strip_prefix("P:") {
+        // `a[k] op= v`: op = "<op>:<n>:<k>"; the first n operands are the list's elements, the last one is v
+        let parts: Vec<&str> = rest.split(':').collect();
+        let n: usize = parts[1].parse().unwrap();
+        let k: usize = parts[2].parse().unwrap();
+        let recv = crate::GcVector::new(args[..n].to_vec());
+        let function = Function::new(Weak::new(), "verif".to_string(), Box::new([]));
+        let stack = Rc::new(RefCell::new(Stack::new()));
+        let mut ctx = Ctx::new(&function, stack, Cow::Owned(vec![]), None);
+        ctx.push(P::HeapPrimitive(crate::variables::HeapPrimitive::new_array_view(recv.clone(), k)));
+        ctx.push(args[n].clone());
+        let r = imp::bin_op_assign(&mut ctx, &[parts[0].to_string()]);
+        let items = recv.0.borrow().iter().map(item).collect::<Vec<_>>().join(",");
+        let out = match r {
+            Err(_) => format!("ERR | {items}"),
+            Ok(()) => {
+                if ctx.stack_size() != 1 {
+                    format!("OK Other:stack{} | {items}", ctx.stack_size())
+                } else {
+                    format!("OK {} | {items}", item(ctx.get_last_op_item().unwrap()))
+                }
+            }
+        };
+        std::mem::forget(ctx);
+        return out;
+    }
+    if let Some(nn) = op.strip_prefix("X:") {
+        // list indexing with a local variable: the first n operands are the list's elements, the last one becomes `i`
+        let n: usize = nn.parse().unwrap();
+        let recv = crate::GcVector::new(args[..n].to_vec());
+        let function = Function::new(Weak::new(), "verif".to_string(), Box::new([]));
+        let stack = Rc::new(RefCell::new(Stack::new()));
+        stack.borrow_mut().extend(Cow::Borrowed("verif"));
+        let mut ctx = Ctx::new(&function, stack, Cow::Owned(vec![]), None);
+        let _ = ctx.register_variable_local("i".to_string(), args[n].clone());
+        ctx.push(P::Vector(recv.clone()));
+        let r = imp::vec_op(&mut ctx, &["[i]".to_string()]);
+        let out = match r {
+            Err(_) => "ERR".to_string(),
+            Ok(()) => {
+                if ctx.stack_size() != 1 {
+                    format!("OK Other stack{}", ctx.stack_size())
+                } else {
+                    show(ctx.get_last_op_item().unwrap())
+                }
+            }
+        };
+        std::mem::forget(ctx);
+        return out;
+    }
+    if let Some(iarg) = op.strip_prefix("W:") {
+        // indexing with a local variable: the LAST operand becomes the variable `i`, the rest is the operand stack
+        let function = Function::new(Weak::new(), "verif".to_string(), Box::new([]));
+        let stack = Rc::new(RefCell::new(Stack::new()));
+        stack.borrow_mut().extend(Cow::Borrowed("verif"));
+        let mut ctx = Ctx::new(&function, stack, Cow::Owned(vec![]), None);
+        let (last, rest) = args.split_last().unwrap();
+        let _ = ctx.register_variable_local("i".to_string(), last.clone());
+        for a in rest {
+            ctx.push(a.clone());
+        }
+        let r = imp::vec_op(&mut ctx, &[iarg.to_string()]);
+        let out = match r {
+            Err(_) => "ERR".to_string(),
+            Ok(()) => {
+                if ctx.stack_size() != 1 {
+                    format!("OK Other stack{}", ctx.stack_size())
+                } else {
+                    show(ctx.get_last_op_item().unwrap())
+                }
+            }
+        };
+        std::mem::forget(ctx);
+        return out;
+    }
     if let Some(iarg) = op.strip_prefix("V:") {
         return run_instr("vec_op", &[iarg], args);
     }
